@@ -563,6 +563,11 @@ class VInterp(sym.Interp):
             return sym.MATH_METHODS[name](self.num(rv, n))
         if name in ("powi", "pow", "powf", "powc"):
             return self.num(rv, n) ** self.num(self.ev(n["args"][0]), n)
+        if name in ("is_finite", "is_nan", "is_infinite"):
+            return sp.Function(name)(self.num(rv, n))
+        if name == "modulus_squared":
+            x = self.num(rv, n)
+            return x * sp.conjugate(x) if (hasattr(x, "has") and x.has(sp.I)) else x ** 2
         if name in ("unwrap", "expect"):
             return rv
         raise sym.Unsupported(n, "method %s (%s) on %r" % (name, n.get("def"), type(rv).__name__))
